@@ -215,43 +215,47 @@ Qed.
 (* rel_dir_parts.pop() never raises IndexError: glob never yields the directory itself *)
 Lemma search_dir_ok_lemma suf f : search_dir suf f = Ok (selected suf f).
 Proof.
-  unfold search_dir, selected. apply filter_res_ok. intros p Hp.
+  unfold search_dir, selected. apply filter_res_ok. intros p Hp. unfold search_step.
+  destruct (is_file_at f p); [|reflexivity]. simpl.
   apply keep_parts_ok. eapply glob_nonempty; eassumption.
 Qed.
 
+(* [node_at] (look a path up, as stat does) against [reaches] (some chain of entries) *)
+Lemma lookup_In es n c : lookup es n = Some c -> In (n, c) es.
+Proof.
+  induction es as [|[m d] r IH]; simpl; intros H; [discriminate|].
+  destruct (str_eqb n m) eqn:E.
+  - apply str_eqb_eq in E. inversion H; subst. left; reflexivity.
+  - right. apply IH. exact H.
+Qed.
+
+Lemma node_at_reaches : forall p f c, node_at f p = Some c -> reaches f p c.
+Proof.
+  induction p as [|n p IH]; intros f c H; simpl in H.
+  - inversion H; subst. constructor.
+  - destruct f as [|es]; [discriminate|]. destruct (lookup es n) as [d|] eqn:El; [|discriminate].
+    econstructor; [apply lookup_In; exact El | apply IH; exact H].
+Qed.
+
+Lemma is_file_at_iff f p : is_file_at f p = true <-> node_at f p = Some File.
+Proof.
+  unfold is_file_at. destruct (node_at f p) as [[|es]|]; split; intros H; try reflexivity; try discriminate.
+Qed.
+
+(* THE SELECTION THEOREM, every tree, every suffix: returned <-> the path is a file, it is non-hidden and
+   has the suffix, and it is public. *)
 Lemma selected_iff_lemma suf f p :
-  In p (selected suf f) <-> (exists c, reaches f p c) /\ glob_ok suf p /\ public_rel p.
+  In p (selected suf f) <-> node_at f p = Some File /\ glob_ok suf p /\ public_rel p.
 Proof.
-  unfold selected. rewrite filter_In, glob_spec_lemma, keep_b_iff. unfold glob_ok. tauto.
+  unfold selected. rewrite filter_In, glob_spec_lemma, andb_true_iff, is_file_at_iff, keep_b_iff. split.
+  - intros [[_ Hok] [Hf [_ Hpub]]]. auto.
+  - intros [Hf [Hok Hpub]]. split; [split; [exists File; apply node_at_reaches; exact Hf | exact Hok]|].
+    split; [exact Hf|]. split; [apply Hok | exact Hpub].
 Qed.
 
-(* the statement's reading: the node must be a FILE.  Every public file is returned ... *)
-Lemma public_files_selected_lemma suf f p :
-  reaches f p File -> glob_ok suf p -> public_rel p -> In p (selected suf f).
-Proof. intros H1 H2 H3. apply selected_iff_lemma. split; [exists File; exact H1 | tauto]. Qed.
-
-(* ... and whatever is returned exists, is visible, has the suffix and is public - but may be a directory *)
-Definition no_dir_matches (suf : str) (f : fs) : Prop :=
-  forall p sub, p <> [] -> reaches f p (Dir sub) -> has_suffix suf (last p []) = false.
-
-Lemma selected_iff_files_lemma suf f p :
-  no_dir_matches suf f ->
-  (In p (selected suf f) <-> reaches f p File /\ glob_ok suf p /\ public_rel p).
-Proof.
-  intros Hnd. rewrite selected_iff_lemma. split.
-  - intros [[c Hc] [Hok Hpub]]. split; [|tauto]. destruct c as [|sub]; [exact Hc|].
-    destruct Hok as [Hne [_ Hs]]. rewrite (Hnd p sub Hne Hc) in Hs. discriminate.
-  - intros [H1 H2]. split; [exists File; exact H1 | exact H2].
-Qed.
-
-Lemma selected_dir_refuted_lemma :
-  exists suf f p, In p (selected suf f) /\ ~ reaches f p File.
-Proof.
-  exists PY, (Dir [(120%N :: PY, Dir [])]), [120%N :: PY]. split.
-  - vm_compute. left; reflexivity.
-  - intros H. inversion H as [|es n c q f0 Hin Hq]; subst.
-    destruct Hin as [Heq|[]]. inversion Heq; subst. inversion Hq.
-Qed.
+(* in particular: never a directory (the defect fixed by faed18b, as a theorem) *)
+Lemma selected_never_dir_lemma suf f p es : In p (selected suf f) -> node_at f p <> Some (Dir es).
+Proof. intros H. apply selected_iff_lemma in H as [H _]. rewrite H. discriminate. Qed.
 
 (* ================================================================================== *)
 (* C. each file once                                                                   *)
@@ -578,6 +582,30 @@ Proof.
   reflexivity.
 Qed.
 
+(* the file name without its final suffix, as a specification independent of strip_suffix:
+   either the name has no dot at all, or it is stem "." ext with no dot in stem or ext *)
+Definition stem_of (n s : str) : Prop :=
+  (dotfree n /\ s = n) \/ (exists e, n = s ++ DOT :: e /\ clean_part s /\ clean_part e).
+
+Lemma take_nodot_dotfree a : dotfree a -> take_nodot a = (a, []).
+Proof.
+  induction a as [|c a IH]; intros Hd; [reflexivity|].
+  apply dotfree_cons in Hd as [Hc Hd]. simpl. rewrite Hc, (IH Hd). reflexivity.
+Qed.
+
+Lemma strip_suffix_stem n s : stem_of n s -> strip_suffix n = s.
+Proof.
+  intros [[Hd ->]|[e [-> [[Hs _] He]]]].
+  - unfold strip_suffix. rewrite take_nodot_dotfree by (apply dotfree_rev; exact Hd).
+    destruct (rev n); reflexivity.
+  - apply strip_suffix_ext; assumption.
+Qed.
+
+Lemma module_parts_stem d n s : stem_of n s -> module_parts (d ++ [n]) = d ++ [s].
+Proof.
+  intros H. unfold module_parts. rewrite removelast_last, last_last, (strip_suffix_stem n s H). reflexivity.
+Qed.
+
 (* ---- the .__init__ strip ---- *)
 Import Coq.Strings.String.StringSyntax.
 Local Open Scope string_scope.
@@ -620,68 +648,84 @@ Proof.
 Qed.
 
 (* the parts Python has to resolve: a trailing __init__ names the package itself *)
-Definition import_parts (rel : list str) : list str :=
-  let mp := module_parts rel in
-  if str_eqb (last mp []) INIT && Nat.leb 2 (length mp) then removelast mp else mp.
+Definition drop_init (parts : list str) : list str :=
+  if str_eqb (last parts []) INIT && Nat.leb 2 (length parts) then removelast parts else parts.
 
-(* names as the statement's guard demands: directory names without dots, file = stem "." extension, no
+Definition import_parts (rel : list str) : list str := drop_init (module_parts rel).
+
+(* names as the guard demands: directory names without dots, file = stem "." extension, no
    further dot, nothing empty *)
 Definition clean_rel (d : list str) (m e : str) : Prop :=
   Forall clean_part d /\ clean_part m /\ clean_part e.
 
+Lemma clean_rel_stem d m e : clean_rel d m e -> stem_of (m ++ DOT :: e) m.
+Proof. intros [_ [Hm He]]. right. exists e. auto. Qed.
+
 Lemma clean_parts_dotfree l : Forall clean_part l -> Forall dotfree l.
 Proof. apply Forall_impl. intros a [_ H]. exact H. Qed.
 
-Lemma module_path_cases d m e :
-  clean_rel d m e ->
-  let rel := d ++ [m ++ DOT :: e] in
-  module_path None rel = join_dot (import_parts rel) /\
-  import_parts rel = (if str_eqb m INIT && negb (match d with [] => true | _ => false end) then d else d ++ [m]).
+Lemma drop_init_snoc d s :
+  drop_init (d ++ [s]) = (if str_eqb s INIT && negb (match d with [] => true | _ => false end) then d else d ++ [s]).
 Proof.
-  intros [Hd [Hm He]] rel. subst rel. unfold module_path, import_parts.
-  rewrite (module_parts_ext d m e (proj1 Hm) He). rewrite last_last, removelast_last.
-  rewrite app_length. simpl length.
-  assert (Hall : Forall dotfree (d ++ [m])).
-  { apply Forall_app. split; [apply clean_parts_dotfree; exact Hd | repeat constructor; apply Hm]. }
+  unfold drop_init. rewrite last_last, removelast_last, app_length. simpl length.
+  destruct (str_eqb s INIT); [|reflexivity]. destruct d as [|a d']; [reflexivity|].
+  replace (Nat.leb 2 (length (a :: d') + 1)) with true by (symmetry; apply Nat.leb_le; simpl; lia).
+  reflexivity.
+Qed.
+
+Lemma module_path_cases d n s :
+  Forall clean_part d -> clean_part s -> stem_of n s ->
+  module_path None (d ++ [n]) = join_dot (drop_init (d ++ [s])).
+Proof.
+  intros Hd Hs Hn. unfold module_path. rewrite (module_parts_stem d n s Hn), drop_init_snoc.
+  assert (Hall : Forall dotfree (d ++ [s])).
+  { apply Forall_app. split; [apply clean_parts_dotfree; exact Hd | repeat constructor; apply Hs]. }
   unfold str in *.
-  destruct (str_eqb m INIT) eqn:Em.
-  - apply str_eqb_eq in Em. subst m. destruct d as [|a d'].
-    + simpl. split; reflexivity.
-    + replace (Nat.leb 2 (length (a :: d') + 1)) with true by (symmetry; apply Nat.leb_le; simpl; lia).
-      simpl andb. rewrite join_dot_snoc by discriminate.
+  destruct (str_eqb s INIT) eqn:Em.
+  - apply str_eqb_eq in Em. subst s. destruct d as [|a d'].
+    + simpl. reflexivity.
+    + simpl andb. rewrite join_dot_snoc by discriminate.
       change (DOT :: INIT) with DOT_INIT.
       replace (has_suffix DOT_INIT (join_dot (a :: d') ++ DOT_INIT)) with true
         by (symmetry; apply has_suffix_iff; eexists; reflexivity).
-      change 9 with (length DOT_INIT). rewrite firstn_strip. split; reflexivity.
-  - simpl andb. destruct (has_suffix DOT_INIT (join_dot (d ++ [m]))) eqn:Hs.
-    + apply dot_init_suffix_last in Hs; [|destruct d; discriminate | exact Hall].
-      rewrite last_last in Hs. subst m. rewrite str_eqb_refl in Em. discriminate.
-    + split; reflexivity.
+      change 9 with (length DOT_INIT). rewrite firstn_strip. reflexivity.
+  - simpl andb. destruct (has_suffix DOT_INIT (join_dot (d ++ [s]))) eqn:Hsuf.
+    + apply dot_init_suffix_last in Hsuf; [|destruct d; discriminate | exact Hall].
+      rewrite last_last in Hsuf. subst s. rewrite str_eqb_refl in Em. discriminate.
+    + reflexivity.
 Qed.
 
-Lemma dot_path_roundtrip_lemma d m e :
-  clean_rel d m e ->
-  split_dot (module_path None (d ++ [m ++ DOT :: e])) = import_parts (d ++ [m ++ DOT :: e]).
+Lemma drop_init_clean d s : Forall clean_part d -> clean_part s ->
+  drop_init (d ++ [s]) <> [] /\ Forall clean_part (drop_init (d ++ [s])).
 Proof.
-  intros H. destruct (module_path_cases d m e H) as [H1 H2]. rewrite H1. apply split_join.
-  - rewrite H2. destruct d as [|a d']; simpl negb.
-    + rewrite andb_false_r. discriminate.
-    + destruct (str_eqb m INIT && true); discriminate.
-  - rewrite H2. destruct H as [Hd [Hm _]].
-    destruct (str_eqb m INIT && _); [apply clean_parts_dotfree; exact Hd|].
-    apply Forall_app. split; [apply clean_parts_dotfree; exact Hd | repeat constructor; apply Hm].
+  intros Hd Hs. rewrite drop_init_snoc. destruct (str_eqb s INIT && _) eqn:E.
+  - split; [|exact Hd]. destruct d; [|discriminate]. rewrite andb_false_r in E. discriminate.
+  - split; [destruct d; discriminate|]. apply Forall_app. split; [exact Hd | constructor; [exact Hs | constructor]].
 Qed.
 
-Lemma init_maps_to_package_lemma d :
-  d <> [] -> Forall clean_part d -> module_path None (d ++ [INIT_PY]) = join_dot d.
+(* THE ROUND TRIP: str.split(".") of the dot path gives back the path components (extension removed, a
+   trailing __init__ dropped) - for every path in which no component contains a '.' besides the suffix *)
+Lemma dot_path_roundtrip_lemma d n s :
+  Forall clean_part d -> clean_part s -> stem_of n s ->
+  split_dot (module_path None (d ++ [n])) = drop_init (d ++ [s]).
 Proof.
-  intros Hne Hd.
-  assert (Hc : clean_rel d INIT [112%N; 121%N]).
-  { split; [exact Hd|]. split; split; try discriminate; [apply init_dotfree|].
+  intros Hd Hs Hn. rewrite (module_path_cases d n s Hd Hs Hn).
+  destruct (drop_init_clean d s Hd Hs) as [Hne Hc].
+  apply split_join; [exact Hne | apply clean_parts_dotfree; exact Hc].
+Qed.
+
+(* no guard at all is needed for __init__.py: d/__init__.py maps to the dotted name of the package d *)
+Lemma init_maps_to_package_lemma d : d <> [] -> module_path None (d ++ [INIT_PY]) = join_dot d.
+Proof.
+  intros Hne. unfold module_path.
+  assert (Hst : stem_of INIT_PY INIT).
+  { right. exists [112%N; 121%N]. split; [reflexivity|]. split; split; try discriminate; [apply init_dotfree|].
     unfold dotfree. vm_compute. intuition discriminate. }
-  destruct (module_path_cases d INIT _ Hc) as [H1 H2].
-  change (INIT ++ DOT :: [112%N; 121%N]) with INIT_PY in *. rewrite H1, H2.
-  rewrite str_eqb_refl. destruct d; [congruence | reflexivity].
+  rewrite (module_parts_stem d INIT_PY INIT Hst), join_dot_snoc by exact Hne.
+  change (DOT :: INIT) with DOT_INIT.
+  replace (has_suffix DOT_INIT (join_dot d ++ DOT_INIT)) with true
+    by (symmetry; apply has_suffix_iff; eexists; reflexivity).
+  change 9 with (length DOT_INIT). apply firstn_strip.
 Qed.
 
 (* ---- an app's files: the module path below the app's name = the module path from the package root ---- *)
